@@ -37,7 +37,14 @@
 //	more than 64 values is printed as #<n>:<digest of the sorted values>.  The driver decodes
 //	this back into one record per operation and checks every one of them.
 //
-// With -stat it runs the statistical supporting step instead (real NewCounter, fresh entropy).
+// With -stat it runs the statistical supporting step instead (real NewCounter, fresh entropy): the mean
+// of Count over independent fresh counters and, since round 6 (stat6.go), over runs separated by Reset
+// on one counter, and the (Len, Count) trajectories of runs compared with each other against the
+// exactly computed chance that two independent runs coincide.
+//
+// The scripted source goes in through the hook NewCounterWithSource (the real NewCounter, then the
+// source replaced).  If the counter's source field cannot hold a scripted source any more the hook
+// returns nil and this command exits 3: no trace line can be produced, -stat still runs.
 package main
 
 import (
